@@ -23,7 +23,7 @@ manifest = {
     "hooks": {
         "guard": "barter_rs_barter_rs_verif",
         "enable": "no hooks are needed: every observation point is public API; the checks build /repo's crates by path dependency from /verif/harness (RUSTFLAGS --cfg barter_rs_barter_rs_verif is reserved and unused)",
-        "baseline_off_cmd": "cd /repo && cargo test --workspace --no-fail-fast --offline",
+        "baseline_off_cmd": "cd /repo && CARGO_INCREMENTAL=0 cargo nextest run --workspace --lib --tests --no-fail-fast --test-threads 8 --offline",
         "source_commits": hook_commits,
         "add_only": True,
     },
